@@ -44,11 +44,11 @@ Qed.
 Lemma set_history_search_off s : ehs s = false -> set_history_search s = set_hst s None.
 Proof. unfold set_history_search. intros ->. reflexivity. Qed.
 
-Lemma history_backward_nofilter c s k :
+Lemma history_backward_pos_nofilter c s k :
   ehs s = false -> 1 <= k <= wi s ->
-  wi (history_backward c s k) = wi s - k.
+  wi (history_backward_pos c s k) = wi s - k.
 Proof.
-  intros He Hk. unfold history_backward. rewrite set_history_search_off by exact He.
+  intros He Hk. unfold history_backward_pos. rewrite set_history_search_off by exact He.
   assert (Hl : 1 <= k <= Z.of_nat (length (range_down (wi (set_hst s None) - 1)))).
   { rewrite length_range_down. unfold set_hst; proj. lia. }
   destruct (nav_loop_nofilter c (range_down (wi (set_hst s None) - 1)) (set_hst s None) k false eq_refl Hl)
@@ -58,11 +58,11 @@ Proof.
   unfold set_hst; proj. lia.
 Qed.
 
-Lemma history_forward_nofilter c s k :
+Lemma history_forward_pos_nofilter c s k :
   ehs s = false -> 0 <= wi s -> 1 <= k -> wi s + k < len (wl s) ->
-  wi (history_forward c s k) = wi s + k.
+  wi (history_forward_pos c s k) = wi s + k.
 Proof.
-  intros He H0 Hk Hlen. unfold history_forward. rewrite set_history_search_off by exact He.
+  intros He H0 Hk Hlen. unfold history_forward_pos. rewrite set_history_search_off by exact He.
   assert (Hl : 1 <= k <= Z.of_nat (length (range_up (wi (set_hst s None) + 1) (len (wl (set_hst s None)))))).
   { rewrite length_range_up. unfold set_hst; proj. lia. }
   destruct (nav_loop_nofilter c _ (set_hst s None) k false eq_refl Hl) as (A & B & _).
@@ -71,10 +71,28 @@ Proof.
   unfold set_hst; proj. lia.
 Qed.
 
-(* Back k then forward k (k >= 1, k entries available): same entry, same text,
+Lemma history_backward_nofilter c s k :
+  ehs s = false -> 0 <= k <= wi s ->
+  wi (history_backward c s k) = wi s - k.
+Proof.
+  intros He Hk. unfold history_backward.
+  destruct (k =? 0) eqn:E0; [lia|]. destruct (k <? 0) eqn:E1; [lia|].
+  apply history_backward_pos_nofilter; [exact He | lia].
+Qed.
+
+Lemma history_forward_nofilter c s k :
+  ehs s = false -> 0 <= wi s -> 0 <= k -> wi s + k < len (wl s) ->
+  wi (history_forward c s k) = wi s + k.
+Proof.
+  intros He H0 Hk Hlen. unfold history_forward.
+  destruct (k =? 0) eqn:E0; [lia|]. destruct (k <? 0) eqn:E1; [lia|].
+  apply history_forward_pos_nofilter; [exact He | exact H0 | lia | exact Hlen].
+Qed.
+
+(* Back k then forward k (0 <= k, k entries available): same entry, same text,
    all working lines untouched. *)
 Lemma back_forth c s k :
-  Inv s -> ehs s = false -> 1 <= k <= wi s ->
+  Inv s -> ehs s = false -> 0 <= k <= wi s ->
   let s1 := step_state c s (OBack k) in
   let s2 := step_state c s1 (OFwd k) in
   wi s1 = wi s - k /\ wi s2 = wi s /\ wl s2 = wl s /\ text s2 = text s.
@@ -93,14 +111,14 @@ Proof.
   apply text_eq; congruence.
 Qed.
 
-(* k = 0: history_backward(0) walks to the oldest entry, history_forward(0) to
-   the newest, instead of staying. *)
+(* Before the count fix (finding C14-F2): history_backward(0) walked to the
+   oldest entry, history_forward(0) to the newest, instead of staying. *)
 Definition zero_witness : hs :=
   mk [[97]; [98]; [99]] 1 0 None None V_UNKNOWN false (mkst [[98]; [97]] [[97]; [98]] true) (Some 2) true false.
 
-Lemma back_forth_zero_refuted :
+Lemma back_forth_zero_pinned_refuted :
   exists c s, Inv s /\ ehs s = false /\ hst s = None /\ 0 <= 0 <= wi s /\
-    wi (step_state c (step_state c s (OBack 0)) (OFwd 0)) <> wi s.
+    wi (history_forward_pinned c (history_backward_pinned c s 0) 0) <> wi s.
 Proof.
   exists (mkcfg false false None), zero_witness.
   repeat split; try (vm_compute; congruence); try reflexivity.
@@ -139,12 +157,12 @@ Proof.
   unfold set_history_search, search_prefix. intros ->. destruct (hst s) eqn:E; [exact E | reflexivity].
 Qed.
 
-Lemma history_backward_prefix c s k :
+Lemma history_backward_pos_prefix c s k :
   ehs s = true ->
-  hst (history_backward c s k) = Some (search_prefix s) /\
-  (wi (history_backward c s k) = wi s \/ startswith (text (history_backward c s k)) (search_prefix s) = true).
+  hst (history_backward_pos c s k) = Some (search_prefix s) /\
+  (wi (history_backward_pos c s k) = wi s \/ startswith (text (history_backward_pos c s k)) (search_prefix s) = true).
 Proof.
-  intros He. unfold history_backward.
+  intros He. unfold history_backward_pos.
   destruct (nav_loop_prefix c (search_prefix s) (wi s) (range_down (wi (set_history_search s) - 1))
               (set_history_search s) k false (set_history_search_on s He)) as (A & B).
   { left. apply set_history_search_wi. }
@@ -153,12 +171,12 @@ Proof.
   rewrite set_cursor_hst, set_cursor_wi, set_cursor_text. auto.
 Qed.
 
-Lemma history_forward_prefix c s k :
+Lemma history_forward_pos_prefix c s k :
   ehs s = true ->
-  hst (history_forward c s k) = Some (search_prefix s) /\
-  (wi (history_forward c s k) = wi s \/ startswith (text (history_forward c s k)) (search_prefix s) = true).
+  hst (history_forward_pos c s k) = Some (search_prefix s) /\
+  (wi (history_forward_pos c s k) = wi s \/ startswith (text (history_forward_pos c s k)) (search_prefix s) = true).
 Proof.
-  intros He. unfold history_forward.
+  intros He. unfold history_forward_pos.
   destruct (nav_loop_prefix c (search_prefix s) (wi s)
               (range_up (wi (set_history_search s) + 1) (len (wl (set_history_search s))))
               (set_history_search s) k false (set_history_search_on s He)) as (A & B).
@@ -171,25 +189,58 @@ Qed.
 Definition reached_ok (s s' : hs) : Prop :=
   wi s' = wi s \/ startswith (text s') (search_prefix s) = true.
 
-Lemma auto_up_prefix c s n g s' :
-  ehs s = true -> auto_up c s n g = Some s' -> reached_ok s s'.
+Lemma search_prefix_some s p : hst s = Some p -> search_prefix s = p.
+Proof. unfold search_prefix. intros ->. reflexivity. Qed.
+
+Lemma history_backward_prefix c s k :
+  ehs s = true -> reached_ok s (history_backward c s k).
 Proof.
-  intros He. unfold auto_up, cursor_up, reached_ok. destruct (0 <? _).
-  - destruct (n <? 1); [discriminate|]. intros H; inversion H; subst. left.
-    unfold set_pref; proj. apply set_cursor_wi.
-  - intros H; inversion H; subst.
-    destruct (history_backward_prefix c s n He) as (_ & B).
+  intros He. unfold history_backward, reached_ok. destruct (k =? 0); [left; reflexivity|].
+  destruct (k <? 0); [apply history_forward_pos_prefix | apply history_backward_pos_prefix]; exact He.
+Qed.
+
+Lemma history_forward_prefix c s k :
+  ehs s = true -> reached_ok s (history_forward c s k).
+Proof.
+  intros He. unfold history_forward, reached_ok. destruct (k =? 0); [left; reflexivity|].
+  destruct (k <? 0); [apply history_backward_pos_prefix | apply history_forward_pos_prefix]; exact He.
+Qed.
+
+Lemma history_backward_hst c s k p :
+  ehs s = true -> hst s = Some p -> hst (history_backward c s k) = Some p.
+Proof.
+  intros He Hh. unfold history_backward. destruct (k =? 0); [exact Hh|].
+  destruct (k <? 0);
+    [destruct (history_forward_pos_prefix c s (- k) He) as (A & _)
+    |destruct (history_backward_pos_prefix c s k He) as (A & _)];
+    rewrite A, (search_prefix_some s p Hh); reflexivity.
+Qed.
+
+Lemma history_forward_hst c s k p :
+  ehs s = true -> hst s = Some p -> hst (history_forward c s k) = Some p.
+Proof.
+  intros He Hh. unfold history_forward. destruct (k =? 0); [exact Hh|].
+  destruct (k <? 0);
+    [destruct (history_backward_pos_prefix c s (- k) He) as (A & _)
+    |destruct (history_forward_pos_prefix c s k He) as (A & _)];
+    rewrite A, (search_prefix_some s p Hh); reflexivity.
+Qed.
+
+Lemma auto_up_prefix c s n g :
+  ehs s = true -> reached_ok s (auto_up c s n g).
+Proof.
+  intros He. unfold auto_up, cursor_up. destruct (0 <? _).
+  - left. unfold set_pref; proj. apply set_cursor_wi.
+  - pose proof (history_backward_prefix c s n He) as B. unfold reached_ok in *.
     destruct g; [|exact B]. unfold go_start_of_line. rewrite set_cursor_wi, set_cursor_text. exact B.
 Qed.
 
-Lemma auto_down_prefix c s n g s' :
-  ehs s = true -> auto_down c s n g = Some s' -> reached_ok s s'.
+Lemma auto_down_prefix c s n g :
+  ehs s = true -> reached_ok s (auto_down c s n g).
 Proof.
-  intros He. unfold auto_down, cursor_down, reached_ok. destruct (_ <? _).
-  - destruct (n <? 1); [discriminate|]. intros H; inversion H; subst. left.
-    unfold set_pref; proj. apply set_cursor_wi.
-  - intros H; inversion H; subst.
-    destruct (history_forward_prefix c s n He) as (_ & B).
+  intros He. unfold auto_down, cursor_down. destruct (_ <? _).
+  - left. unfold set_pref; proj. apply set_cursor_wi.
+  - pose proof (history_forward_prefix c s n He) as B. unfold reached_ok in *.
     destruct g; [|exact B]. unfold go_start_of_line. rewrite set_cursor_wi, set_cursor_text. exact B.
 Qed.
 
@@ -204,8 +255,8 @@ Proof.
   destruct o; cbn [is_hist_step] in Ho; try contradiction; cbn [step_core ok fst snd].
   - apply history_backward_prefix; exact He.
   - apply history_forward_prefix; exact He.
-  - destruct (auto_up c s n gts) eqn:E; cbn [of_opt ok fst snd]; [eapply auto_up_prefix; eauto | left; reflexivity].
-  - destruct (auto_down c s n gts) eqn:E; cbn [of_opt ok fst snd]; [eapply auto_down_prefix; eauto | left; reflexivity].
+  - apply auto_up_prefix; exact He.
+  - apply auto_down_prefix; exact He.
 Qed.
 
 (* ... and once captured the prefix survives every navigation operation *)
@@ -214,9 +265,6 @@ Proof.
   unfold go_to_history. destruct (i <? len (wl s)); [|reflexivity].
   rewrite set_cursor_hst, set_wi_hst. reflexivity.
 Qed.
-
-Lemma search_prefix_some s p : hst s = Some p -> search_prefix s = p.
-Proof. unfold search_prefix. intros ->. reflexivity. Qed.
 
 Lemma validate_hst c s sc : hst (fst (validate c s sc)) = hst s.
 Proof.
@@ -231,26 +279,18 @@ Lemma nav_hst_stable c s o p :
 Proof.
   intros Ho He Hh. rewrite step_state_eq, flush_hst.
   destruct o; cbn [is_nav] in Ho; try contradiction; cbn [step_core ok fst snd].
-  - destruct (history_backward_prefix c s n He) as (A & _). rewrite A, (search_prefix_some s p Hh). reflexivity.
-  - destruct (history_forward_prefix c s n He) as (A & _). rewrite A, (search_prefix_some s p Hh). reflexivity.
+  - apply history_backward_hst; assumption.
+  - apply history_forward_hst; assumption.
   - destruct (i <? - len (wl s)); cbn [ok fst snd]; [exact Hh | rewrite go_to_history_hst; exact Hh].
   - unfold auto_up, cursor_up. destruct (0 <? _).
-    + destruct (n <? 1); cbn [of_opt ok fst snd]; [exact Hh|].
-      unfold set_pref; proj. rewrite set_cursor_hst. exact Hh.
-    + cbn [of_opt ok fst snd].
-      destruct (history_backward_prefix c s n He) as (A & _).
-      destruct gts; [unfold go_start_of_line; rewrite set_cursor_hst|];
-        rewrite A, (search_prefix_some s p Hh); reflexivity.
+    + unfold set_pref; proj. rewrite set_cursor_hst. exact Hh.
+    + destruct gts; [unfold go_start_of_line; rewrite set_cursor_hst|];
+        apply history_backward_hst; assumption.
   - unfold auto_down, cursor_down. destruct (_ <? _).
-    + destruct (n <? 1); cbn [of_opt ok fst snd]; [exact Hh|].
-      unfold set_pref; proj. rewrite set_cursor_hst. exact Hh.
-    + cbn [of_opt ok fst snd].
-      destruct (history_forward_prefix c s n He) as (A & _).
-      destruct gts; [unfold go_start_of_line; rewrite set_cursor_hst|];
-        rewrite A, (search_prefix_some s p Hh); reflexivity.
-  - unfold end_of_history. rewrite go_to_history_hst.
-    destruct (history_forward_prefix c s (10 ^ 100) He) as (A & _).
-    rewrite A, (search_prefix_some s p Hh). reflexivity.
+    + unfold set_pref; proj. rewrite set_cursor_hst. exact Hh.
+    + destruct gts; [unfold go_start_of_line; rewrite set_cursor_hst|];
+        apply history_forward_hst; assumption.
+  - unfold end_of_history. rewrite go_to_history_hst. apply history_forward_hst; assumption.
   - rewrite set_cursor_hst; exact Hh.
   - rewrite set_cursor_hst; exact Hh.
   - rewrite set_cursor_hst; exact Hh.
